@@ -88,6 +88,9 @@ type Frame struct {
 	curClause *Clause
 	loopPre map[*ssa.BasicBlock]*State
 	loopLvs map[*ssa.BasicBlock][]lval
+	fspec     *frameSpec
+	loopSpecs map[*ssa.BasicBlock]*frameSpec
+	loopBody  map[*ssa.BasicBlock]map[*ssa.BasicBlock]bool
 }
 
 func (f *Frame) pos(p token.Pos) string {
@@ -155,7 +158,7 @@ func (f *Frame) oblige(kind, label, goal string, pos token.Pos, props []string, 
 func (e *Engine) newFrame(c *Ctx, fn *ssa.Function, fc *FuncContract) *Frame {
 	return &Frame{c: c, fn: fn, fc: fc, vals: map[ssa.Value]Val{}, in: map[*ssa.BasicBlock]map[*ssa.BasicBlock]edge{},
 		params: map[string]Val{}, hv: map[*ssa.BasicBlock]map[string]bool{}, oblSeq: map[string]int{},
-		allocIdx: map[*ssa.Alloc]int{}, headerSt: map[*ssa.BasicBlock]*State{}, loopPre: map[*ssa.BasicBlock]*State{}, loopLvs: map[*ssa.BasicBlock][]lval{}}
+		allocIdx: map[*ssa.Alloc]int{}, headerSt: map[*ssa.BasicBlock]*State{}, loopPre: map[*ssa.BasicBlock]*State{}, loopLvs: map[*ssa.BasicBlock][]lval{}, loopSpecs: map[*ssa.BasicBlock]*frameSpec{}}
 }
 
 // ---------- CFG helpers ----------
@@ -434,9 +437,16 @@ func (f *Frame) enterLoop(h *ssa.BasicBlock) {
 	}
 	// 1. invariant holds on entry
 	env := f.specEnv(f.st, f.entrySt, true)
+	env.pre = f.st
 	for i, inv := range ls.Inv {
-		g := env.evalBool(inv.Expr)
-		f.oblige("inv-entry", fmt.Sprintf("loop%d.%d", ord, i), g, blockPos(h), inv.Props, inv.Text)
+		parts := splitConj(inv.Expr)
+		for j, pe := range parts {
+			label, text := fmt.Sprintf("loop%d.%d", ord, i), inv.Text
+			if len(parts) > 1 {
+				label, text = fmt.Sprintf("loop%d.%d.%d", ord, i, j), pe.String()
+			}
+			f.oblige("inv-entry", label, env.evalBool(pe), blockPos(h), inv.Props, text)
+		}
 	}
 	var dec0 string
 	// 2. havoc what the body modifies
@@ -489,11 +499,27 @@ func (f *Frame) enterLoop(h *ssa.BasicBlock) {
 	for _, lv := range lvs {
 		f.havocLval(lv)
 	}
+	// objects allocated while the loop runs may hold anything: only objects that existed at loop entry are framed
+	nowPre := c.now(pre)
+	for _, n := range sortedKeys(covered) {
+		srt := c.heapSorts[n]
+		if !strings.HasPrefix(srt, "(Array Int ") || strings.HasPrefix(n, "$") || strings.HasPrefix(n, "G_") {
+			continue
+		}
+		mod := c.heap(f.st, n, srt)
+		hh := c.fresh("L"+fmt.Sprint(ord)+"."+n, srt)
+		c.assume(fmt.Sprintf("(forall ((r!l Int)) (! (=> (< (born r!l) %s) (= (select %s r!l) (select %s r!l))) :pattern ((select %s r!l))))", nowPre, hh, mod, hh))
+		f.st.heaps[n] = hh
+	}
 	f.loopPre[h] = pre
 	f.loopLvs[h] = lvs
+	if len(ls.Modifies) > 0 {
+		f.loopSpecs[h] = f.buildFrameSpec(f.specEnv(pre, f.entrySt, true), ls.Modifies, nowPre)
+	}
 	f.headerSt[h] = f.st.clone()
 	// 3. assume invariant
 	env = f.specEnv(f.st, f.entrySt, true)
+	env.pre = pre
 	for _, inv := range ls.Inv {
 		c.assume(implies(f.reach, env.evalBool(inv.Expr)))
 	}
@@ -569,32 +595,20 @@ func (f *Frame) closeLoop(h *ssa.BasicBlock, cond string) {
 	}
 	saveReach := f.reach
 	f.reach = cond
-	if lvs := f.loopLvs[h]; len(lvs) > 0 && f.loopPre[h] != nil {
-		expect := f.loopPre[h].clone()
-		names := map[string]bool{}
-		for _, lv := range lvs {
-			n := c.heapNameOfPath(lv.path)
-			names[n] = true
-			if lv.whole {
-				hn, hs := c.heapNameArr(lv.elemT)
-				fin := fmt.Sprintf("(select %s (sbase %s))", c.heap(f.st, hn, hs), lv.slice)
-				expect.heaps[hn] = fmt.Sprintf("(store %s (sbase %s) %s)", c.heap(expect, hn, hs), lv.slice, fin)
-				continue
-			}
-			c.store(expect, lv.path, c.load(f.st, lv.path))
-		}
-		for _, n := range sortedKeys(names) {
-			cur, ok := f.st.heaps[n]
-			if !ok {
-				continue
-			}
-			f.oblige("loop-frame", fmt.Sprintf("loop%d.%s", ord, n), fmt.Sprintf("(= %s %s)", cur, expect.heaps[n]), blockPos(h), nil, "the loop body changes heap "+n+" only at the locations of the loop's modifies clause")
-		}
-	}
 	env := f.specEnv(f.st, f.entrySt, true)
+	env.pre = f.loopPre[h]
+	if env.pre == nil {
+		env.pre = f.headerSt[h]
+	}
 	for i, inv := range ls.Inv {
-		g := env.evalBool(inv.Expr)
-		f.oblige("inv-preserve", fmt.Sprintf("loop%d.%d", ord, i), g, blockPos(h), inv.Props, inv.Text)
+		parts := splitConj(inv.Expr)
+		for j, pe := range parts {
+			label, text := fmt.Sprintf("loop%d.%d", ord, i), inv.Text
+			if len(parts) > 1 {
+				label, text = fmt.Sprintf("loop%d.%d.%d", ord, i, j), pe.String()
+			}
+			f.oblige("inv-preserve", label, env.evalBool(pe), blockPos(h), inv.Props, text)
+		}
 	}
 	if ls.Dec != nil {
 		d1 := env.eval(ls.Dec.Expr, nil)
@@ -782,6 +796,7 @@ func (f *Frame) storeVal(p *Path, v Val) {
 		return
 	}
 	f.checkRaw(p, "store")
+	f.frameWritePath(p, f.curPos)
 	if v.P != nil {
 		// storing a structural pointer: only pointers to whole heap objects can be materialised
 		if v.P.Kind == rootHeap && len(v.P.Steps) == 0 {
@@ -1430,6 +1445,14 @@ func (f *Frame) execMakeSlice(x *ssa.MakeSlice) {
 	} else {
 		f.oblige("panic", "makeslice", fmt.Sprintf("(and (<= 0 %s) (<= %s %s) (<= %s 4611686018427387904))", l, l, cp, cp), x.Pos(), nil, "makeslice: len out of range")
 	}
+	// an allocation that succeeds is below the address-space limit (2^47 bytes on amd64); larger requests
+	// end in an out-of-memory failure, which is outside the properties considered here
+	if c.mode == "bv" {
+		c.assume(implies(f.reach, fmt.Sprintf("(bvule %s (_ bv140737488355328 64))", cp)))
+	} else {
+		c.assume(implies(f.reach, fmt.Sprintf("(<= %s 140737488355328)", cp)))
+	}
+	c.note("allocations above 2^47 elements are treated as impossible (out-of-memory is not modelled)")
 	r := c.fresh("mk", "Int")
 	f.assumeFresh(r)
 	hp := &Path{Kind: rootArr, T: et, Ref: r}
